@@ -103,6 +103,7 @@ def havoc_callback(I, fval, args, e, env):
         raise Unanalysable("callback argument is not a randomizing wrapper")
     tag = getattr(I, "tag", "")
     n2 = isym("n2" + tag)
+    I.havoc_count += 1  # idempotent summary of arbitrary user code: exempt from the loop-carried-state rule
     if not getattr(inner, "_havoc", False):
         inner._havoc = True
         if "num_vars" in inner.fields:
